@@ -426,11 +426,11 @@ func (c *Crew) toMachines(ctx context.Context, msg interface{}) ([]string, error
 		case []string:
 			return vv, nil
 		case []interface{}:
-			mids := make([]string, len(vv))
-			for i, x := range vv {
+			mids := make([]string, 0, len(vv))
+			for _, x := range vv {
 				switch vv := x.(type) {
 				case string:
-					mids[i] = vv
+					mids = append(mids, vv)
 				}
 			}
 			return mids, nil
@@ -451,6 +451,10 @@ func (c *Crew) RunMachines(ctx context.Context, msg interface{}) (map[string]*co
 	acc := make(map[string]*core.Walked, len(mids))
 
 	for _, mid := range mids {
+		if _, did := acc[mid]; did {
+			// A recipient listed twice still sees the message once.
+			continue
+		}
 		if m, have := c.Machines[mid]; have {
 			walked, err := c.RunMachine(ctx, msg, m)
 			if err != nil {
